@@ -66,27 +66,5 @@ fn k11_wtiterator_next_back() {
     kani::cover!(i0 == e0);
 }
 
-/// C18: every query structure is Send + Sync (decided by rustc's trait solver when this module compiles)
-fn assert_send_sync<T: Send + Sync>() {}
-#[kani::proof]
-fn k18_send_sync() {
-    assert_send_sync::<BitVector>();
-    assert_send_sync::<BitVectorMut>();
-    assert_send_sync::<QVector>();
-    assert_send_sync::<RSQVector256>();
-    assert_send_sync::<RSQVector512>();
-    assert_send_sync::<RSNarrow>();
-    assert_send_sync::<RSWide>();
-    assert_send_sync::<DArray<false>>();
-    assert_send_sync::<DArray<true>>();
-    assert_send_sync::<QWT256<u8>>();
-    assert_send_sync::<QWT512<u64>>();
-    assert_send_sync::<QWT256Pfs<u32>>();
-    assert_send_sync::<QWT512Pfs<u128>>();
-    assert_send_sync::<HQWT256<u8>>();
-    assert_send_sync::<HQWT512<u16>>();
-    assert_send_sync::<HQWT256Pfs<usize>>();
-    assert_send_sync::<HQWT512Pfs<u64>>();
-    assert_send_sync::<WT<u64>>();
-    assert_send_sync::<HWT<u8>>();
-}
+// (the Send + Sync obligations moved to a rustc-level check, replay/src/bin/sendsync.rs: here a structure that loses
+// an auto trait would stop the whole overlay from compiling)
